@@ -52,7 +52,11 @@ def rule_e1(eff, R, strict_counts=True):
                 continue
             p = root[2:]
             if p in ("self", "self.*") and f.cls is not None and (f.name in SELF_MUTATORS or f.kind == "setter"):
-                continue
+                # a setter / initialiser may (re)bind fields of its own object; writing INTO an array the object already holds is
+                # different: the constructor keeps the caller's arrays by reference, so that write lands in the caller's (and every
+                # sibling shell's) memory
+                if ev.kind in ("attribute-store", "aug-assign-attr", "del-attr") or ev.origin[0] is not f:
+                    continue
             bad.append((p, ev))
         if bad:
             for p, ev in bad:
